@@ -275,21 +275,21 @@ func (r *Run) writeEvidence(discharged, nviol int) {
 		perRule[k] = v
 	}
 	cov := map[string]interface{}{
-		"explanation":        r.Explain,
-		"obligations":        len(r.Obls),
-		"discharged":         discharged,
-		"samples":            samples,
-		"rule_instances":     perRule,
-		"instance_floors":    r.floors,
-		"functions_analysed": funcs,
-		"call_sites":         r.CallSites,
-		"configurations":     r.Configs,
-		"notes":              r.Notes,
-		"exhaustive":         true,
+		"explanation":            r.Explain,
+		"obligations":            len(r.Obls),
+		"discharged":             discharged,
+		"samples":                samples,
+		"rule_instances":         perRule,
+		"instance_floors":        r.floors,
+		"functions_analysed":     funcs,
+		"call_sites":             r.CallSites,
+		"configurations":         r.Configs,
+		"notes":                  r.Notes,
+		"exhaustive":             true,
 		"known_findings_matched": r.knownMatch,
-		"checker_cmd":        fmt.Sprintf("./check %s %s", r.Prop, r.Tier),
-		"trusted_base":       r.Assume,
-		"technique":          r.Technique,
+		"checker_cmd":            fmt.Sprintf("./check %s %s", r.Prop, r.Tier),
+		"trusted_base":           r.Assume,
+		"technique":              r.Technique,
 	}
 	for k, v := range r.Extra {
 		cov[k] = v
